@@ -587,6 +587,7 @@ theorem outcome_facts (L : Layout) : ∀ (f : Nat),
       cases st with
       | flat s => simp [sem] at h
       | skip => simp [sem] at h
+      | forget => simp [sem] at h
       | brk => simp [sem] at h
       | cont => rfl
       | ifCont c => rfl
@@ -1116,6 +1117,11 @@ theorem correct_all (L : Layout) : ∀ fuel, Correct L fuel := by
         subst h
         refine ⟨s, ?_, hm, by simpa [gen] using hinv, rfl⟩
         simpa [gen] using Steps.refl (L := L) (code := pre ++ post) pre.length s
+      | forget =>
+        simp only [sem, Option.some.injEq] at h
+        subst h
+        refine ⟨s, ?_, hm, by simp [gen, FlagsInv], rfl⟩
+        simpa [gen] using Steps.refl (L := L) (code := pre ++ post) pre.length s
       | brk =>
         simp only [sem, Option.some.injEq] at h
         subst h
@@ -1181,6 +1187,7 @@ theorem scoped_norm (L : Layout) : ∀ (f : Nat) (m : SrcSt) (st : SStmt) (o : O
     cases st with
     | flat s => simp only [sem, Option.some.injEq] at h; subst h; rfl
     | skip => simp only [sem, Option.some.injEq] at h; subst h; rfl
+    | forget => simp only [sem, Option.some.injEq] at h; subst h; rfl
     | brk => simp [Scoped] at hsc
     | cont => simp [Scoped] at hsc
     | ifBrk c => simp [Scoped] at hsc
